@@ -102,6 +102,21 @@ pub mod vfs {
     pub open spec fn overwrite(old: Seq<u8>, data: Seq<u8>) -> Seq<u8> {
         if data.len() >= old.len() { data } else { data + old.skip(data.len() as int) }
     }
+    // std::fs::Permissions / PermissionsExt::from_mode, File::set_permissions (fchmod: the umask does not apply)
+    #[verifier::external_type_specification]
+    #[verifier::external_body]
+    pub struct ExPermissions(std::fs::Permissions);
+    pub uninterp spec fn perm_mode(p: std::fs::Permissions) -> u32;
+    pub assume_specification [<std::fs::Permissions as std::os::unix::fs::PermissionsExt>::from_mode] (m: u32) -> (r: std::fs::Permissions)
+        ensures perm_mode(r) == m;
+    impl File {
+        #[verifier::external_body]
+        pub fn set_permissions(&self, perm: std::fs::Permissions, Tracked(w): Tracked<&mut World>) -> (r: Result<(), IoError>)
+            ensures final(w).clock == old(w).clock, final(w).admissions == old(w).admissions, final(w).net == old(w).net,
+                final(w).fs.files == old(w).fs.files,
+                final(w).fs.events == old(w).fs.events.push(FsEvent::Chmod { path: self.path@, mode: perm_mode(perm) }),
+        { unimplemented!() }
+    }
     impl OpenOptions {
         pub fn new() -> (r: OpenOptions)
             ensures r == (OpenOptions { mode: 0o666, write: false, create: false, truncate: false })
